@@ -43,6 +43,9 @@ def plan(tier, seed):
             nd = int(pick(rng, [1, 1, 2, 2, 3]))
             lim = [40, 16, 8][nd - 1] if not quick else [24, 10, 6][nd - 1]
             shape = [int(rng.integers(1, lim + 1)) for _ in range(nd)]
+            if i % 6 == 5:         # size-dependent regime: several levels really decimate
+                shape = [int(pick(rng, [[32, 33, 47, 64, 65, 96], [16, 17, 24, 32], [8, 9, 12]][
+                    nd - 1])) for _ in range(nd)]
             r = rng.random()
             if r < 0.3:
                 axes = None
@@ -125,6 +128,9 @@ def run_one(case):
         try:
             W = sp.linop.Wavelet(shape, axes=axes, wave_name=name, level=level)
             x = relayout(crandn(rng, shape, dt), sum(case["rs"]) % 6)   # 1-3: F / T / strided
+            mag = [1, 1, 1, 1e-10, 1e8][sum(case["rs"]) % 5]     # the transform is homogeneous
+            if mag != 1:
+                x = x * x.dtype.type(mag)
             x0 = x.copy(order="C")
             if case["via"] == "linop":
                 c = W(x)
@@ -134,7 +140,15 @@ def run_one(case):
                 _, slices = sp.wavelet.get_wavelet_shape(shape, name, axes, level)
                 back = sp.iwt(c, shape, slices, wave_name=name, axes=axes, level=level)
             y = crandn(rng, tuple(W.oshape), dt)
+            if mag != 1:
+                y = y * y.dtype.type(mag)
             WHy = W.H(y)
+            # the same pair reached the other way round: adjoint of the adjoint, and the
+            # inverse-transform operator constructed directly and its adjoint
+            WHHx = W.H.H(x)
+            Wi = sp.linop.InverseWavelet(shape, axes=axes, wave_name=name, level=level)
+            WiHx = Wi.H(x)
+            Wiy = Wi(y)
         except Exception as e:
             inn = e
             while inn.__cause__ is not None:
@@ -166,4 +180,16 @@ def run_one(case):
                         wit, mech="adjoint", obs=obs)
     if not np.array_equal(x, x0):
         return violated(sig, "input modified", wit, mech="mutated")
+    cref = W(x0)
+    for nm_, got_, ref_ in (("Wavelet.H.H", WHHx, cref), ("InverseWavelet.H", WiHx, cref),
+                            ("InverseWavelet", Wiy, WHy)):
+        checks += 1
+        if tuple(got_.shape) != tuple(ref_.shape):
+            return violated(sig, "%s returns shape %s where the forward / inverse pair gives "
+                            "%s" % (nm_, got_.shape, ref_.shape), wit, mech="indirect-shape")
+        e_ = nrm(got_ - ref_) / max(nrm(ref_), 1e-300)
+        obs["indirect"] = max(obs.get("indirect", 0.0), e_)
+        if not e_ <= tol:
+            return violated(sig, "%s differs from the transform reached directly: rel %.3g" % (
+                nm_, e_), wit, mech="indirect", obs=obs)
     return held(sig, obs, checks, any(shape[a] >= 2 for a in tr))
